@@ -8,7 +8,7 @@ PROFILE = {'name': 'c16', 'max_clients': 5, 'hostile_masks': False, 'cfg_variant
 def run(ctx):
     res = Result("C16")
     results, cover, shapes = common.e1_check(
-        ctx, res, PROFILE, n_quick=128, n_thorough=640, steps=150, steps_thorough=300,
+        ctx, res, PROFILE, n_quick=128, n_thorough=2560, steps=150, steps_thorough=300,
         relevant=lambda t: t[0] in ('create', 'part-last', 'join', 'names'),
         nontrivial_rule='create-decorate-empty-recreate cycles with the emptying exit chosen among PART, KICK, QUIT, close/reset, KILL in any order; random configurations of 0-3 predefined channels with random subsets of topic, flags, key, limit, lists and rank lists; model includes preconfigured channels and their default ranks; snapshot equality after every step (I5: no empty non-preconfigured channel, every preconfigured one present); distinct = cover tuples + emptied/created shapes')
     created = sum(c for s, c in shapes.items() if "create" in s)
